@@ -16,7 +16,7 @@ from concurrent.futures import ThreadPoolExecutor
 import queue
 
 os.environ["VERIF_NO_EVIDENCE"] = "1"
-V = "/verif"
+V = os.path.dirname(os.path.dirname(os.path.abspath(__file__)))
 ALL = ["C%02d" % i for i in range(1, 21)]
 EXPECTED_MISS = {("probes/C02", "p6.diff"): "changes the version-marker scheme between builds: not a same-build restart",
                  ("probes/C14", "p4.diff"): "only differs for a configured batch size of 0",
